@@ -310,6 +310,11 @@ class Program:
             return f(node.left) + f(node.right)
         if isinstance(node, ast.BinOp) and isinstance(node.op, ast.BitOr):
             return f(node.left) | f(node.right)
+        if isinstance(node, ast.BinOp) and isinstance(node.op, ast.Div):
+            l_ = f(node.left)
+            if not hasattr(l_, "__sym_div__"):
+                raise CannotFold(f"division not foldable: {unparse(node)[:60]}")
+            return l_.__sym_div__(f(node.right))
         if isinstance(node, ast.UnaryOp) and isinstance(node.op, ast.USub):
             return -f(node.operand)
         if isinstance(node, ast.Name):
@@ -340,12 +345,17 @@ class Program:
         if isinstance(node, ast.Call):
             fn = node.func
             # str methods on folded receivers
-            if isinstance(fn, ast.Attribute) and fn.attr in ("lstrip", "rstrip", "strip", "lower", "upper", "split", "keys", "values", "items", "replace", "startswith", "endswith"):
+            if isinstance(fn, ast.Attribute) and fn.attr in ("lstrip", "rstrip", "strip", "lower", "upper", "split", "keys", "values", "items", "replace", "startswith", "endswith", "join", "format", "zfill", "rjust", "ljust", "title", "capitalize"):
                 recv = f(fn.value)
                 args = [f(a) for a in node.args]
                 if fn.attr in ("keys", "values", "items"):
                     return list(getattr(recv, fn.attr)())
                 if isinstance(recv, str):
+                    if fn.attr == "format":
+                        kw_ = {k.arg: f(k.value) for k in node.keywords if k.arg is not None}
+                        if any(k.arg is None for k in node.keywords):
+                            raise CannotFold(f"format(**..) not foldable: {unparse(node)[:60]}")
+                        return recv.format(*args, **kw_)
                     return getattr(recv, fn.attr)(*args)
                 raise CannotFold(f"method on non-str: {unparse(node)}")
             cname = unparse(fn)
